@@ -190,4 +190,39 @@ theorem verify_is_the_translated_source (s : Schema) (d : JVal) :
   unfold verifyJSONSchema okIf
   cases validate s d <;> simp [throw, throwThe, MonadExceptOf.throw, pure, Except.pure, Except.isOk, Except.toBool]
 
+
+/-- how the result of the translated `getTemplate` reads as a stage outcome -/
+def outcomeOf {T : Type} : Except String (T × Option Schema) → TemplateOutcome
+  | .ok (_, s) => .found s
+  | .error _ => .error
+
+open Mockery.Generated.Decide in
+theorem getTemplate_general (hp : String → Bool) (req ex : Bool) (fs bi : Option Schema) :
+    outcomeOf (Generated.Decide.getTemplate (T := Unit) ["file://", "https://", "http://"] hp req
+      (if ex then some () else none) (fs.map some) (bi.map (fun _ => ())) (bi.map some)) =
+    (if hp "file://" || hp "https://" || hp "http://" then
+      (if !ex then TemplateOutcome.error
+       else if req then (match fs with | some s => .found (some s) | none => .error) else .found none)
+     else match bi with | some s => .found (some s) | none => .error) := by
+  unfold Generated.Decide.getTemplate
+  simp only [getTemplate.loop]
+  cases h1 : hp "file://" <;> cases h2 : hp "https://" <;> cases h3 : hp "http://" <;>
+    cases req <;> cases ex <;> cases fs <;> cases bi <;>
+    simp [outcomeOf, pure, Except.pure, throw, throwThe, MonadExceptOf.throw]
+
+/-- **`getTemplate` is the translated source**: the model's choice of template and schema – a `file://`, `https://` or
+`http://` name is retrieved, its schema only when `require-template-schema-exists` is true, and what cannot be retrieved
+is an error; every other name must be a built-in template and is validated against its built-in schema *whatever* that
+option says – is the translation of `TemplateGenerator.getTemplate` (rewritten from the Go text on every run) with
+retrieval as the model's `World` -/
+theorem getTemplate_is_the_translated_source (w : World) (g : GenRequest) :
+    outcomeOf (Generated.Decide.getTemplate (T := Unit) ["file://", "https://", "http://"] (fun p => g.template.startsWith p)
+      g.requireSchema (if w.templateExists g.template then some () else none) ((w.fetchSchema g.schemaURL).map some)
+      ((w.builtin g.template).map (fun _ => ())) ((w.builtin g.template).map some)) = Run.getTemplate w g := by
+  rw [getTemplate_general]
+  unfold Run.getTemplate isRemoteTemplate
+  cases g.template.startsWith "file://" <;> cases g.template.startsWith "https://" <;>
+    cases g.template.startsWith "http://" <;> cases w.templateExists g.template <;> cases g.requireSchema <;>
+    cases w.fetchSchema g.schemaURL <;> cases w.builtin g.template <;> simp
+
 end Mockery.C12
